@@ -526,6 +526,23 @@ func runLayout(res *vutil.Result, name string, leds []string, tier string) {
 									w.r.ext[[2]int{int(cur), 61}] = true
 									w.tap("KEY_ESC") // panic clears the external highlight
 									w.check(chanColor)
+									// the external keyboard releases the key that panic already silenced (a stray Note Off), then
+									// releases twice: later notes on other channels must still be shown
+									w.midiIn(midi.NoteEvent(midi.NoteOff, cur, 61, 0), "midi NoteOff cur/61 (already cleared by panic)")
+									delete(w.r.ext, [2]int{int(cur), 61})
+									w.check(chanColor)
+									w.midiIn(midi.NoteEvent(midi.NoteOn, oth, p2, 90), "midi NoteOn other/61")
+									w.r.ext[[2]int{int(oth), int(p2)}] = true
+									w.check(chanColor)
+									w.midiIn(midi.NoteEvent(midi.NoteOff, oth, p2, 0), "midi NoteOff other/61")
+									delete(w.r.ext, [2]int{int(oth), int(p2)})
+									w.midiIn(midi.NoteEvent(midi.NoteOn, oth, p2, 0), "midi NoteOn velocity 0 other/61 (duplicate release)")
+									w.midiIn(midi.NoteEvent(midi.NoteOn, highc, p1, 90), "midi NoteOn ch+1/60")
+									w.r.ext[[2]int{int(highc), int(p1)}] = true
+									w.check(chanColor)
+									w.midiIn(midi.NoteEvent(midi.NoteOff, highc, p1, 0), "midi NoteOff ch+1/60")
+									delete(w.r.ext, [2]int{int(highc), int(p1)})
+									w.check(chanColor)
 								}
 								for _, k := range hs {
 									w.release(k)
